@@ -106,9 +106,9 @@ def make_header(ilines, xlines, samples, tracecount, hw_info, bits_per_voxel, bl
         n_il = len(geom.ilines)
         buffer[12:16] = int_to_bytes(n_il)
 
-        min_xl = np.int32(geom.min_xl) if unstructured else xlines[0]
+        min_xl = np.int32(geom.min_xl) if unstructured else xlines[geom.xlines[0]]
         buffer[20:24] = np_float_to_bytes_signed(min_xl)
-        min_il = np.int32(geom.min_il) if unstructured else ilines[0]
+        min_il = np.int32(geom.min_il) if unstructured else ilines[geom.ilines[0]]
         buffer[24:28] = np_float_to_bytes_signed(min_il)
 
         if not unstructured:
